@@ -472,8 +472,13 @@ def run_pipe(cell):
         o = api.choice('out%d' % i, len(OUTPUTS))
         where = api.choice('where%d' % i, 2)
         text = OUTPUTS[o]
-        if len(text) and api.choice('symfirst%d' % i, 2):
-            text = api.sbytes('first%d' % i, 1, 0x20, 0x7e) + text[1:]
+        if len(text):
+            sf = api.choice('symfirst%d' % i, 3)
+            if sf == 1:
+                text = api.sbytes('first%d' % i, 1, 0x20, 0x7e) + text[1:]
+            elif sf == 2:
+                # output that is not UTF-8 (Latin-1 text, binary junk)
+                text = b'\xe9chec: \xff' + text[1:]
         hang = api.choice('hang%d' % i, 2) if i == 0 else 0
         per_call.append((rc, text, hang))
         return rc, (text if where == 0 else b''), \
